@@ -2,7 +2,7 @@
    what cumulative_trapezoid holds at a data point; exactness for affine integrands;
    quadrature error against Coquelicot's RInt; the induced statement for dL and mu;
    the analytically integrated path. *)
-From Coq Require Import ZArith QArith Qround Reals List Bool Lia Lra Sorted.
+From Coq Require Import ZArith QArith Qround Qreals Qreduction Reals List Bool Lia Lra Sorted.
 From Coquelicot Require Import Coquelicot.
 From ESRV Require Import Model.Trapz Proofs.TrapzProofs.
 Import ListNotations.
@@ -33,7 +33,10 @@ Lemma R_trans : forall x y z : R, @fle RFld x y -> @fle RFld y z -> @fle RFld x 
 Proof. intros x y z. rewrite !R_fle. lra. Qed.
 
 Lemma Q_fle : forall x y : Q, @fle QFld x y <-> (x <= y)%Q.
-Proof. intros. unfold fle. simpl. unfold Qleb. apply Qle_bool_iff. Qed.
+Proof.
+  intros. unfold fle. simpl. unfold Qleb, Qle. rewrite Z.leb_le, (Z.mul_comm (Zpos (Qden y))), (Z.mul_comm (Zpos (Qden x))).
+  reflexivity.
+Qed.
 
 Lemma Q_total : forall x y : Q, @fle QFld x y \/ @fle QFld y x.
 Proof. intros. rewrite !Q_fle. destruct (Qlt_le_dec x y) as [H|H]; [left; apply Qlt_le_weak; exact H|right; exact H]. Qed.
@@ -782,4 +785,238 @@ Proof.
   intros i Hlt z g h HF Hc. destruct (Hi i Hlt) as [Ti [Hv [H1 H2]]].
   exists Ti. split; [exact Hv|]. split; [|split; [exact H1|exact H2]].
   apply (integrated_pred_nth Fa g zs i Hlt); [apply Hz; apply nth_In; exact Hlt|exact HF|exact Hc].
+Qed.
+
+(* ================================================================ transfer between instances *)
+(* An order embedding that commutes with the operations maps the model over F to the model over G.
+   Instantiated with Q2R below: the executable Q instance computes (the Q2R-preimage of) what the R instance,
+   the subject of the analytic theorems, denotes -- for everything except 1/sqrt, which Q only approximates. *)
+Section Embed.
+Context {F G : Fld}.
+Variable phi : car F -> car G.
+Hypothesis phi_leb : forall x y, fleb G (phi x) (phi y) = fleb F x y.
+Hypothesis phi_0 : phi (f0 F) = f0 G.
+Hypothesis phi_1 : phi (f1 F) = f1 G.
+Hypothesis phi_Z : forall z, phi (fofZ F z) = fofZ G z.
+Hypothesis phi_add : forall x y, phi (fadd F x y) = fadd G (phi x) (phi y).
+Hypothesis phi_sub : forall x y, phi (fsub F x y) = fsub G (phi x) (phi y).
+Hypothesis phi_mul : forall x y, phi (fmul F x y) = fmul G (phi x) (phi y).
+Hypothesis phi_div : forall x y, @feqb F y (f0 F) = false -> phi (fdiv F x y) = fdiv G (phi x) (phi y).
+Hypothesis phi_ceil : forall x, fceil G (phi x) = fceil F x.
+Hypothesis ofZ_pos : forall z, (0 < z)%Z -> @feqb F (fofZ F z) (f0 F) = false.
+
+Lemma phi_feqb : forall x y, @feqb G (phi x) (phi y) = @feqb F x y.
+Proof. intros. unfold feqb. rewrite !phi_leb. reflexivity. Qed.
+
+Lemma insert_map : forall x l, map phi (insert x l) = insert (phi x) (map phi l).
+Proof.
+  intros x l. induction l as [|y r IH]; simpl; [reflexivity|].
+  rewrite phi_leb. destruct (fleb F x y); simpl; [reflexivity|]. rewrite IH. reflexivity.
+Qed.
+
+Lemma isort_map : forall l, map phi (isort l) = isort (map phi l).
+Proof. induction l as [|x r IH]; simpl; [reflexivity|]. rewrite insert_map, IH. reflexivity. Qed.
+
+Lemma dedup_map : forall l, map phi (dedup l) = dedup (map phi l).
+Proof.
+  induction l as [|x r IH]; [reflexivity|]. destruct r as [|y r']; [reflexivity|].
+  change (dedup (x :: y :: r')) with (if feqb x y then dedup (y :: r') else x :: dedup (y :: r')).
+  change (dedup (map phi (x :: y :: r')))
+    with (if feqb (phi x) (phi y) then dedup (map phi (y :: r')) else phi x :: dedup (map phi (y :: r'))).
+  rewrite phi_feqb. destruct (feqb x y); [exact IH|].
+  change (map phi (x :: dedup (y :: r'))) with (phi x :: map phi (dedup (y :: r'))). rewrite IH. reflexivity.
+Qed.
+
+Lemma unique_map : forall l, map phi (unique l) = unique (map phi l).
+Proof. intro l. unfold unique. rewrite dedup_map, isort_map. reflexivity. Qed.
+
+Lemma fold_fminb_map : forall r x, fold_left fminb (map phi r) (phi x) = phi (fold_left fminb r x).
+Proof.
+  induction r as [|y r IH]; intro x; [reflexivity|]. simpl.
+  replace (fminb (phi x) (phi y)) with (phi (fminb x y)); [apply IH|].
+  unfold fminb. rewrite phi_leb. destruct (fleb F x y); reflexivity.
+Qed.
+
+Lemma fold_fmaxb_map : forall r x, fold_left fmaxb (map phi r) (phi x) = phi (fold_left fmaxb r x).
+Proof.
+  induction r as [|y r IH]; intro x; [reflexivity|]. simpl.
+  replace (fmaxb (phi x) (phi y)) with (phi (fmaxb x y)); [apply IH|].
+  unfold fmaxb. rewrite phi_leb. destruct (fleb F x y); reflexivity.
+Qed.
+
+Lemma lmin_map : forall l, lmin (map phi l) = option_map phi (lmin l).
+Proof. intros [|x r]; [reflexivity|]. simpl. rewrite fold_fminb_map. reflexivity. Qed.
+
+Lemma lmax_map : forall l, lmax (map phi l) = option_map phi (lmax l).
+Proof. intros [|x r]; [reflexivity|]. simpl. rewrite fold_fmaxb_map. reflexivity. Qed.
+
+Lemma linspace_map : forall a b n, map phi (linspace a b n) = linspace (phi a) (phi b) n.
+Proof.
+  intros a b n. destruct n as [|[|m]]; [reflexivity|reflexivity|].
+  unfold linspace. rewrite map_app, map_map. simpl (map phi [b]). f_equal.
+  apply map_ext. intro i. rewrite phi_add, phi_mul, phi_Z, phi_div, phi_sub, phi_Z; [reflexivity|].
+  apply ofZ_pos. lia.
+Qed.
+
+Lemma where_from_map : forall xs d i, where_from i (map phi xs) (phi d) = where_from i xs d.
+Proof.
+  induction xs as [|x r IH]; intros d i; [reflexivity|]. simpl. rewrite phi_feqb, !IH. reflexivity.
+Qed.
+
+Lemma mask_of_map : forall xs zs, mask_of (map phi xs) (map phi zs) = mask_of xs zs.
+Proof.
+  intros xs zs. unfold mask_of. rewrite map_map. f_equal. apply map_ext. intro d. apply where_from_map.
+Qed.
+
+Definition map_params (p : params F) : params G := mkParams (phi (delta_z p)) (min_nz p).
+
+Lemma grid_map : forall p zs, @feqb F (delta_z p) (f0 F) = false ->
+  grid (map_params p) (map phi zs) = option_map (map phi) (grid p zs).
+Proof.
+  intros p zs Hd. unfold grid. rewrite lmin_map, lmax_map.
+  destruct (lmin zs) as [a|]; [|reflexivity]. destruct (lmax zs) as [b|]; [|reflexivity]. simpl.
+  f_equal. unfold grid_of. rewrite unique_map, !map_app, !linspace_map. simpl.
+  rewrite phi_1, !phi_add. unfold nx_of. simpl. rewrite <- phi_sub, <- phi_div by exact Hd. rewrite phi_ceil. reflexivity.
+Qed.
+
+Lemma cell_map : @feqb F (@f2 F) (f0 F) = false -> forall x0 x1 y0 y1,
+  phi (cell x0 x1 y0 y1) = cell (phi x0) (phi x1) (phi y0) (phi y1).
+Proof.
+  intros H2 x0 x1 y0 y1. unfold cell. rewrite phi_div by exact H2. rewrite phi_mul, phi_sub, phi_add.
+  unfold f2. rewrite phi_Z. reflexivity.
+Qed.
+
+Lemma cumtrapz_from_map : @feqb F (@f2 F) (f0 F) = false -> forall xs ys acc,
+  map phi (cumtrapz_from acc xs ys) = cumtrapz_from (phi acc) (map phi xs) (map phi ys).
+Proof.
+  intros H2 xs. induction xs as [|x0 xr IH]; intros ys acc; [reflexivity|].
+  destruct ys as [|y0 yr]; [reflexivity|]. destruct xr as [|x1 xr']; [reflexivity|].
+  destruct yr as [|y1 yr']; [reflexivity|].
+  change (cumtrapz_from acc (x0 :: x1 :: xr') (y0 :: y1 :: yr'))
+    with (fadd F acc (cell x0 x1 y0 y1) :: cumtrapz_from (fadd F acc (cell x0 x1 y0 y1)) (x1 :: xr') (y1 :: yr')).
+  change (cumtrapz_from (phi acc) (map phi (x0 :: x1 :: xr')) (map phi (y0 :: y1 :: yr')))
+    with (fadd G (phi acc) (cell (phi x0) (phi x1) (phi y0) (phi y1))
+          :: cumtrapz_from (fadd G (phi acc) (cell (phi x0) (phi x1) (phi y0) (phi y1))) (map phi (x1 :: xr')) (map phi (y1 :: yr'))).
+  change (map phi (fadd F acc (cell x0 x1 y0 y1) :: cumtrapz_from (fadd F acc (cell x0 x1 y0 y1)) (x1 :: xr') (y1 :: yr')))
+    with (phi (fadd F acc (cell x0 x1 y0 y1)) :: map phi (cumtrapz_from (fadd F acc (cell x0 x1 y0 y1)) (x1 :: xr') (y1 :: yr'))).
+  rewrite IH, phi_add, cell_map by exact H2. reflexivity.
+Qed.
+
+Lemma cumtrapz_map : @feqb F (@f2 F) (f0 F) = false -> forall xs ys,
+  map phi (cumtrapz xs ys) = cumtrapz (map phi xs) (map phi ys).
+Proof.
+  intros H2 xs ys. unfold cumtrapz. simpl map. rewrite cumtrapz_from_map by exact H2. rewrite phi_0. reflexivity.
+Qed.
+
+Lemma take_mask_map : forall d0 cum m, map phi (take_mask d0 cum m) = take_mask (phi d0) (map phi cum) m.
+Proof.
+  intros d0 cum m. unfold take_mask. rewrite map_map. apply map_ext. intro k. symmetry. apply map_nth.
+Qed.
+
+Lemma zipmul_map : forall a b, map phi (zipmul a b) = zipmul (map phi a) (map phi b).
+Proof.
+  induction a as [|x r IH]; intros [|y s]; try reflexivity. simpl. rewrite phi_mul, IH. reflexivity.
+Qed.
+
+Lemma bmul_map : forall dl zs, bmul (map phi dl) (map phi zs) = option_map (map phi) (bmul dl zs).
+Proof.
+  intros dl zs. unfold bmul. rewrite !map_length. destruct dl as [|d [|d' r]].
+  - destruct zs as [|z [|z' s]]; reflexivity.
+  - simpl. f_equal. rewrite !map_map. apply map_ext. intro z. rewrite phi_mul. reflexivity.
+  - cbn [map]. destruct (Nat.eqb (length (d :: d' :: r)) (length zs)).
+    + cbn [option_map]. f_equal. apply (eq_sym (zipmul_map (d :: d' :: r) zs)).
+    + destruct zs as [|z [|z' s]]; try reflexivity. cbn [map option_map]. f_equal. f_equal; [symmetry; apply phi_mul|].
+      f_equal; [symmetry; apply phi_mul|]. rewrite !map_map. apply map_ext. intro t. symmetry. apply phi_mul.
+Qed.
+
+End Embed.
+
+(* ---------------------------------------------------------------- the embedding Q2R : QFld -> RFld *)
+Lemma Q2R_leb : forall x y : Q, Rleb (Q2R x) (Q2R y) = Qleb x y.
+Proof.
+  intros x y. destruct (Qleb x y) eqn:E.
+  - apply Rleb_true. apply Qle_Rle. apply Q_fle. exact E.
+  - apply Rleb_false. apply Qlt_Rlt. apply Qnot_le_lt. intro H. apply Q_fle in H. unfold fle in H. simpl in H. congruence.
+Qed.
+
+Lemma Q2R_inject_Z : forall z, Q2R (inject_Z z) = IZR z.
+Proof. intro z. unfold Q2R. simpl. rewrite Rinv_1. ring. Qed.
+
+Lemma Q2R_red : forall q, Q2R (Qred q) = Q2R q.
+Proof. intro q. apply Qeq_eqR. apply Qred_correct. Qed.
+
+Lemma Q_feqb_false : forall y : Q, @feqb QFld y (f0 QFld) = false -> ~ (y == 0)%Q.
+Proof.
+  intros y H E. assert (T : @feqv QFld y (f0 QFld)) by (apply Q_feqv; exact E). unfold feqv in T. congruence.
+Qed.
+
+Lemma Q_ofZ_pos : forall z, (0 < z)%Z -> @feqb QFld (fofZ QFld z) (f0 QFld) = false.
+Proof.
+  intros z Hz. destruct (@feqb QFld (fofZ QFld z) (f0 QFld)) eqn:E; [|reflexivity]. exfalso.
+  assert (T : (inject_Z z == 0)%Q) by (apply Q_feqv; exact E). unfold Qeq in T. simpl in T. lia.
+Qed.
+
+Lemma Rceil_Q2R : forall q, Rceil (Q2R q) = Qceiling q.
+Proof.
+  intro q. unfold Rceil, Qceiling. rewrite <- Q2R_opp. set (r := (- q)%Q).
+  assert (H : up (Q2R r) = (Qfloor r + 1)%Z).
+  { symmetry. apply tech_up.
+    - rewrite <- Q2R_inject_Z. apply Qlt_Rlt. apply Qlt_floor.
+    - rewrite plus_IZR. rewrite <- Q2R_inject_Z. apply Rplus_le_compat_r. apply Qle_Rle. apply Qfloor_le. }
+  rewrite H. lia.
+Qed.
+
+Lemma Q2R_fadd : forall x y : Q, Q2R (fadd QFld x y) = fadd RFld (Q2R x) (Q2R y).
+Proof. intros x y. change (Q2R (Qred (x + y)) = Q2R x + Q2R y). rewrite Q2R_red. apply Q2R_plus. Qed.
+Lemma Q2R_fsub : forall x y : Q, Q2R (fsub QFld x y) = fsub RFld (Q2R x) (Q2R y).
+Proof. intros x y. change (Q2R (Qred (x - y)) = Q2R x - Q2R y). rewrite Q2R_red. apply Q2R_minus. Qed.
+Lemma Q2R_fmul : forall x y : Q, Q2R (fmul QFld x y) = fmul RFld (Q2R x) (Q2R y).
+Proof. intros x y. change (Q2R (Qred (x * y)) = Q2R x * Q2R y). rewrite Q2R_red. apply Q2R_mult. Qed.
+Lemma Q2R_fdiv : forall x y : Q, @feqb QFld y (f0 QFld) = false -> Q2R (fdiv QFld x y) = fdiv RFld (Q2R x) (Q2R y).
+Proof.
+  intros x y Hy. change (Q2R (Qred (x / y)) = Q2R x / Q2R y). rewrite Q2R_red. apply Q2R_div. apply Q_feqb_false. exact Hy.
+Qed.
+
+Definition Q2Rp (p : params QFld) : params RFld := @mkParams RFld (Q2R (delta_z p)) (min_nz p).
+
+Theorem grid_Q2R : forall (p : params QFld) (zs : list Q), ~ (delta_z p == 0)%Q ->
+  @grid RFld (Q2Rp p) (map Q2R zs) = option_map (map Q2R) (@grid QFld p zs).
+Proof.
+  intros p zs Hd.
+  apply (grid_map (F:=QFld) (G:=RFld) Q2R).
+  - exact Q2R_leb.
+  - unfold Q2R; simpl; lra.
+  - apply Q2R_inject_Z.
+  - exact Q2R_fadd.
+  - exact Q2R_fsub.
+  - exact Q2R_fmul.
+  - exact Q2R_fdiv.
+  - apply Rceil_Q2R.
+  - apply Q_ofZ_pos.
+  - destruct (@feqb QFld (delta_z p) (f0 QFld)) eqn:E; [|reflexivity]. exfalso. apply Hd. apply Q_feqv. exact E.
+Qed.
+
+Theorem mask_Q2R : forall (xs zs : list Q), @mask_of RFld (map Q2R xs) (map Q2R zs) = @mask_of QFld xs zs.
+Proof. intros. apply (mask_of_map (F:=QFld) (G:=RFld) Q2R). exact Q2R_leb. Qed.
+
+Theorem cumtrapz_Q2R : forall (xs ys : list Q),
+  map Q2R (@cumtrapz QFld xs ys) = @cumtrapz RFld (map Q2R xs) (map Q2R ys).
+Proof.
+  intros. apply (cumtrapz_map (F:=QFld) (G:=RFld) Q2R).
+  - unfold Q2R; simpl; lra.
+  - apply Q2R_inject_Z.
+  - exact Q2R_fadd.
+  - exact Q2R_fsub.
+  - exact Q2R_fmul.
+  - exact Q2R_fdiv.
+  - apply (Q_ofZ_pos 2). lia.
+Qed.
+
+Theorem take_bmul_Q2R : forall (cum : list Q) m (zs : list Q),
+  @bmul RFld (@take_mask RFld 0 (map Q2R cum) m) (map Q2R zs)
+  = option_map (map Q2R) (@bmul QFld (@take_mask QFld 0%Q cum m) zs).
+Proof.
+  intros cum m zs. replace 0 with (Q2R 0%Q) by (unfold Q2R; simpl; lra).
+  rewrite <- (take_mask_map (F:=QFld) (G:=RFld) Q2R).
+  apply (bmul_map (F:=QFld) (G:=RFld) Q2R). exact Q2R_fmul.
 Qed.
